@@ -5,10 +5,12 @@
 -/
 import RoModel.DriverCore
 import RoModel.Drivers.Op
+import RoModel.Drivers.Kernel
 namespace Ro.Driver
 
 def handlers : List (String × (Case → String)) := [
-  ("op", Drivers.Op.run)
+  ("op", Drivers.Op.run),
+  ("kernel", Drivers.Kernel.run)
 ]
 
 def runCase (c : Case) : String :=
